@@ -154,6 +154,56 @@ def _run_hyp(prop, cl, n, seed, tier, kf_open):
     return stats, failure
 
 
+def _run_machine(prop, cl, n, seed, tier, kf_open):
+    import hypothesis
+    from hypothesis import settings, HealthCheck, Phase
+    from hypothesis.stateful import run_state_machine_as_test
+    import hypothesis.internal.conjecture.engine as engine
+    engine.MAX_SHRINKING_SECONDS = 40 if tier == "quick" else 150
+
+    stats = Stats()
+    last_fail = {}
+
+    class Hooks(object):
+        pass
+    hooks = Hooks()
+    hooks.kf_open = kf_open
+
+    def done(case, ctx):
+        stats.record(case, ctx)
+
+    def fail(case, exc, kind):
+        last_fail["case"] = json.loads(core.canon(case))
+        last_fail["msg"] = str(exc) if kind == "violation" else "%s: %s" % (type(exc).__name__, exc)
+        last_fail["kind"] = kind
+        if kind != "violation":
+            last_fail["tb"] = traceback.format_exc()
+    hooks.done = done
+    hooks.fail = fail
+    Machine = type("M_" + cl.name.replace("-", "_"), (cl.machine,), {"_hooks": hooks, "_make_history": staticmethod(cl.make_history)})
+    sett = settings(max_examples=n, stateful_step_count=cl.steps[tier], database=None, deadline=None, derandomize=False,
+                    report_multiple_bugs=False, print_blob=False,
+                    suppress_health_check=[HealthCheck.too_slow, HealthCheck.data_too_large, HealthCheck.large_base_example],
+                    phases=(Phase.explicit, Phase.generate, Phase.shrink))
+    failure = None
+    import io
+    import contextlib
+    sink = io.StringIO()
+    try:
+        with contextlib.redirect_stdout(sink):
+            run_state_machine_as_test(hypothesis.seed(seed)(Machine), settings=sett)
+    except Violation:
+        failure = dict(last_fail)
+    except hypothesis.errors.HypothesisException as e:
+        failure = {"kind": "harness", "msg": "hypothesis: %s: %s" % (type(e).__name__, e),
+                   "case": last_fail.get("case"), "tb": traceback.format_exc()}
+    except Exception as e:  # noqa
+        failure = dict(last_fail) if last_fail else {"kind": "harness", "msg": repr(e), "case": None,
+                                                       "tb": traceback.format_exc()}
+        failure["kind"] = "harness"
+    return stats, failure
+
+
 def _run_enum(prop, cl, tier, shard, nshards, kf_open):
     stats = Stats()
     failure = None
@@ -182,6 +232,8 @@ def worker(task):
         cl = find_clause(mod, clause_name)
         if cl.kind == "enum":
             stats, failure = _run_enum(prop, cl, tier, shard, nshards, kf_open)
+        elif cl.kind == "machine":
+            stats, failure = _run_machine(prop, cl, n, seed, tier, kf_open)
         else:
             stats, failure = _run_hyp(prop, cl, n, seed, tier, kf_open)
         return {"clause": clause_name, "shard": shard, "stats": stats.to_dict(), "failure": failure,
